@@ -53,6 +53,7 @@ func init() {
 			checkC19Containers(c, budget(c.Tier, 200, 2000))
 			checkC19GroupAddGroup(c, budget(c.Tier, 150, 1500))
 			checkC19Counts(c, budget(c.Tier, 200, 5000))
+			checkTagSlicesPrivate(c, budget(c.Tier, 40, 1000), "C19")
 		}}
 	props["C02"] = propRun{
 		rule: "(a) option tokens in all spellings over ASCII / multi-byte / invalid names and arbitrary values through the splitting functions; (b) metamorphic groups: one generated declaration and surrounding argument vector, one occurrence of one option rendered as -xV, -x=V, -x V, --name=V, --name V and quoted forms; (c) cluster groups -abc [V] / -a -b -c [V] / -ab -c [V] with non-ASCII flags; (d) random whole-parser cases with 40% non-ASCII names; (e) library only: the spellings of an option of a bool-KINDED named type with its own conversion (scalar / pointer; it takes an argument although its kind is bool); (f) shadow stage: below a command that redeclares an outer level's short name with the other arity (outer -v takes an argument, the command's -v is a flag, or the reverse) clusters equal separate flags and -xV, -x=V, -x V, --name=V, --name V are one occurrence; distinct per token / group",
@@ -152,6 +153,7 @@ func init() {
 		props["C04"] = propRun{rule: base.rule + "; typed stage: every documented cause of a rejection (unknown option long / short / in a cluster, missing or option-looking argument, argument for a flag, unconvertible / out-of-range / badly quoted value from the command line, the environment or a default tag, non-choice, required option, missing and unknown command, help, refusing callback) produced on purpose, with and without PrintErrors: the documented Type, and the text written exactly once to the right stream or not at all; callback-types stage (library only): callbacks declared to return *flags.Error, a pointer to an error type of the program, error, int or nothing, reached from the command line or a default tag, accepting their value (nil): success, never a panic; struct-types stage (library only): options of struct types with their own conversion, comparable or not (a slice, a map, a func inside), scalar or pointer, with and without a default, on every kind of argument vector: a normal return", run: func(c *Ctx) {
 			base.run(c)
 			checkC04Typed(c, budget(c.Tier, 800, 30000))
+			checkIniAddOption(c, budget(c.Tier, 40, 1000), "C04")
 			checkC04CallbackTypes(c, budget(c.Tier, 200, 4000))
 			checkC04StructTypes(c, budget(c.Tier, 150, 3000))
 		}}
@@ -207,6 +209,7 @@ func init() {
 			checkC08Scope(c, budget(c.Tier, 1500, 60000))
 			checkC08Words(c, budget(c.Tier, 1200, 50000))
 			checkC08Late(c, budget(c.Tier, 600, 20000))
+			checkC08ActiveAssigned(c, budget(c.Tier, 100, 3000))
 			checkC08Namespaced(c, budget(c.Tier, 300, 10000))
 		}}
 	}
@@ -312,6 +315,7 @@ func init() {
 		run: func(c *Ctx) {
 			checkC14(c, budget(c.Tier, 720, 72000))
 			checkIniLateSection(c, budget(c.Tier, 150, 5000), "C14")
+			checkIniAddOption(c, budget(c.Tier, 60, 2000), "C14")
 		}}
 }
 
@@ -323,6 +327,7 @@ func init() {
 			checkIniLateSection(c, budget(c.Tier, 150, 5000), "C13")
 			checkC13CommandCollection(c, budget(c.Tier, 150, 5000))
 			checkC13CommandNamespace(c, budget(c.Tier, 150, 5000))
+			checkIniAddOption(c, budget(c.Tier, 60, 2000), "C13")
 			runMixedCases(c, budget(c.Tier, 150, 15000), defaultProfile, []string{"iniparse", "parse"}, 3, func(cr *CaseResult) { oracleNoPanic(c, cr) })
 		}}
 	props["C05"] = propRun{
@@ -345,6 +350,7 @@ func init() {
 			checkC15Invalid(c, budget(c.Tier, 150, 6000), budget(c.Tier, 8, 32))
 			checkC15StructOption(c, budget(c.Tier, 40, 1500))
 			checkC15AliasClash(c, budget(c.Tier, 60, 2000), budget(c.Tier, 12, 32))
+			checkTagSlicesPrivate(c, budget(c.Tier, 40, 1000), "C15")
 		}}
 }
 
